@@ -15,7 +15,7 @@ DISTINCT_RULE = (
     "500 chars) and every separator; every reference is replayed through process_current_orders of a second framework instance; distinct = distinct references created"
 )
 RULES = ["unique", "charset", "separator", "roundtrip"]
-MINIMA = {"quick": {"rule_unique": 150000, "rule_separator": 500, "rule_roundtrip": 1500}, "thorough": {"rule_unique": 3000000}}
+MINIMA = {"quick": {"rule_unique": 150000, "rule_separator": 500, "rule_roundtrip": 1000}, "thorough": {"rule_unique": 3000000}}
 ASSUMPTIONS = ["the exchange accepts upper/lower case letters, digits and - . _ + * : ; ~ (written down here, not read from flumine)", "distinct strategy names (same-name strategies are warned against and share a hash by construction)"]
 VALID = set(string.ascii_letters) | set(string.digits) | set("-._+*:;~")
 NAMES = ["", "a", "Strategy", "ünïcødé-стратегия-戦略", "x" * 500, "with space", "UPPER_lower-123", "\n\t", "S0", "S1"]
